@@ -42,9 +42,25 @@ def the_reader(x):
     raise Unsupported('reader expected, got %r' % (x,))
 
 
+class BufWriterObj(Opaque):
+    """std::io::BufWriter by contract: data is handed to the inner writer on flush() (errors reported) and on drop (errors IGNORED).
+    Capacity-triggered flushes in between are not modelled: the buffered tail is the part whose write errors a missing flush() loses."""
+    def __init__(self, inner):
+        Opaque.__init__(self, 'bufwriter')
+        self.rt = 'BufWriter'; self.inner = inner; self.buf = []; self.dropped = False
+
+    def on_drop(self, e, me):
+        if self.dropped:
+            return
+        self.dropped = True
+        if self.buf:
+            data, self.buf = self.buf, []
+            writer_write(e, self.inner, data)       # an error here is lost: Drop cannot report it
+
+
 def the_writer(x):
     x = deref_all(x)
-    if isinstance(x, Writer):
+    if isinstance(x, (Writer, BufWriterObj)):
         return x
     if isinstance(x, Seq):
         return x        # Vec<u8> as Write
@@ -72,6 +88,9 @@ def writer_write(e, wtr, elems):
     w = the_writer(wtr)
     if isinstance(w, Seq):
         w.e.extend(Cell(x) for x in elems)
+        return None
+    if isinstance(w, BufWriterObj):
+        w.buf.extend(elems)
         return None
     w.calls += 1
     if w.fail_at is not None and w.calls == w.fail_at:
@@ -103,6 +122,13 @@ def _write_all(e, c, a):
 @model(r'<.* as (?:std::io::)?Write>::flush|std::io::Write::flush')
 def _flush(e, c, a):
     w = the_writer(a[0])
+    if isinstance(w, BufWriterObj):
+        if w.buf:
+            data, w.buf = w.buf, []
+            er = writer_write(e, w.inner, data)
+            if er is not None:
+                return err(er)
+        return _flush(e, c, [w.inner])
     if isinstance(w, Writer):
         w.calls += 1
         if w.fail_at is not None and w.calls == w.fail_at:
@@ -148,9 +174,14 @@ def _read_line(e, c, a):
     return ok(usize(len(got)))
 
 
-@model(r'BufReader::<.*>::new|std::io::BufReader::<.*>::new|BufWriter::<.*>::new|std::io::BufWriter::<.*>::new')
+@model(r'BufReader::<.*>::new|std::io::BufReader::<.*>::new')
 def _bufreader_new(e, c, a):
     return a[0]
+
+
+@model(r'BufWriter::<.*>::new|std::io::BufWriter::<.*>::new|BufWriter::<.*>::with_capacity|std::io::BufWriter::<.*>::with_capacity', 'io::BufWriter (contract: flush reports errors, drop ignores them)')
+def _bufwriter_new(e, c, a):
+    return BufWriterObj(a[-1])
 
 
 @model(r'<.* as (?:std::io::)?Read>::read|std::io::Read::read', 'io::Read::read (contract: may return fewer bytes than requested; every count explored)')
